@@ -3,6 +3,7 @@
 mod enga;
 mod engb;
 mod engc;
+mod engd;
 mod genc;
 mod pipe;
 mod props;
